@@ -687,3 +687,222 @@ class NumberExtendTemplate(_NumberBase):
       ok = False
     return dict(outcome='not-reproduced' if ok else 'reproduced',
                 detail=f'Int(default=5).extend(Int(max_value=3)) -> {s!r}; its own default accepted: {ok}')
+
+
+# ---------------------------------------------------------------------------
+# extension of container specs (schema inheritance), element extension as
+# induction hypothesis:
+#   EXT_OK(s, b)       the element spec s successfully extends b (else TypeError)
+#   EACC_POST(s, v)    acceptance by s *after* it was extended (extend narrows in place)
+#   IH                 EXT_OK(s, b) /\ EACC_POST(s, v)  =>  EACC(b, v)
+#                      EXT_OK(s, b)                     =>  ECOMPAT(b, s)   (post-state)
+
+EXT_OK = z3.Function('ext_ok', z3.IntSort(), z3.IntSort(), z3.BoolSort())
+EACC_POST = z3.Function('eacc_post', z3.IntSort(), z3.IntSort(), z3.BoolSort())
+NEWF = z3.Function('new_field', z3.IntSort(), z3.IntSort(), z3.IntSort())               # (value spec id, position) -> field id
+
+
+def eacc_post(spec_obj, v):
+  """Native stand-in (the spec object has been extended in place)."""
+  return eacc(spec_obj, v)
+
+
+def _assume_ext_ih(b):
+  s, o, v = z3.Ints('xh_s xh_b xh_v')
+  b.path.assume(z3.ForAll([s, o, v], z3.Implies(z3.And(EXT_OK(s, o), EACC_POST(s, v)), EACC(o, v))),
+                check=False)
+  b.path.assume(z3.ForAll([s, o], z3.Implies(EXT_OK(s, o), ECOMPAT(o, s))), check=False)
+
+
+def _ext_policy(policy, field_level):
+  """Callee contract of `extend` on abstract element specs / fields."""
+  from pyvc import interp as I
+  from pyvc.values import ExcVal
+
+  def spec_id(o):
+    if isinstance(o, SObj) and o.cls is cs.Field:
+      return FVAL(o.ghost['id'])
+    return absobj.ref_id(o)
+
+  def extend(interp, frame, args, kwargs):
+    s, base = interp.resolve(args[0]), interp.resolve(args[1])
+    si, bi = spec_id(s), spec_id(base)
+    interp.path.event('extend', 'element.extend', (s, base))
+    interp.path.raise_if(z3.Not(EXT_OK(si, bi)), ExcVal(TypeError, ('element cannot extend',)))
+    return s
+  policy.contracts[f'{M}:ValueSpecBase.extend'] = extend
+  policy.contracts['pyglove.core.typing.class_schema:ValueSpec.extend'] = extend
+  if field_level:
+    policy.contracts['pyglove.core.typing.class_schema:Field.extend'] = extend
+
+  def eacc_post_h(interp, args, kwargs, frame):
+    s, v = args
+    return SBool(EACC_POST(absobj.ref_id(interp.resolve(s)), interp.to_z3(v)))
+  policy.handlers[id(eacc_post)] = eacc_post_h
+
+
+@register
+class ListKeyExtend(Contract):
+  """ListKey.extend (size bounds of an extending List): on return every length
+  the extended key admits is admitted by the base key and by the old key; on
+  TypeError nothing changed."""
+  prop = 'C04'
+  target = 'pyglove.core.typing.key_specs:ListKey.extend'
+  raises = {TypeError: ('unchanged',)}
+  inline = COMMON_INLINE
+
+  def key(self, b, name):
+    return b.obj(pg.typing.ListKey, name=name, _min_value=b.int(name + '_min', lo=0),
+                 _max_value=b.opt_int(name + '_max'))
+
+  def inputs(self, b):
+    return dict(self=self.key(b, 'self'), base=self.key(b, 'base')), dict(n=b.int('n', lo=0))
+
+  def old(self, self_):
+    return dict(mn=self_._min_value, mx=self_._max_value)
+
+  def ensures_narrows(self, self_, base, old, n, result):
+    return result is self_ and implies(
+        acc_len(self_._min_value, self_._max_value, n),
+        acc_len(base._min_value, base._max_value, n) and acc_len(old['mn'], old['mx'], n))
+
+  def raises_unchanged(self, self_, old):
+    return self_._min_value is old['mn'] and self_._max_value is old['mx']
+
+  def mk(self, m, name):
+    return pg.typing.ListKey(m[name + '_min'], m.opt(name + '_max'))
+
+  def native(self, m):
+    return self.mk(m, 'self').extend, [self.mk(m, 'base')], {}
+
+  def replay(self, obligation, m):
+    s, base = self.mk(m, 'self'), self.mk(m, 'base')
+    old = pg.typing.ListKey(s.min_value, s.max_value)
+    n = m['n']
+    adm = lambda k, n: k.min_value <= n and (k.max_value is None or n <= k.max_value)
+    try:
+      s.extend(base)
+    except TypeError:
+      ok = (s.min_value, s.max_value) == (old.min_value, old.max_value)
+      return dict(outcome='not-reproduced' if ok else 'reproduced', detail='TypeError')
+    bad = adm(s, n) and not (adm(base, n) and adm(old, n))
+    return dict(outcome='reproduced' if bad else 'not-reproduced',
+                detail=f'{old}.extend({base}) -> {s}; length {n}')
+
+
+@register
+class ListExtend(_ListBase):
+  """List._extend (through the real Field.extend and ListKey.extend): when it
+  returns, every list the extended spec accepts is accepted by the base, and
+  the base is compatible with the extended spec."""
+  target = f'{M}:List._extend'
+  raises = {TypeError: ()}
+  inline = _ListBase.inline + ('pyglove.core.typing.class_schema:Field.extend',
+                               'pyglove.core.typing.key_specs:ListKey.extend',
+                               'pyglove.core.typing.class_schema:Field.description',
+                               'pyglove.core.typing.class_schema:Field.metadata')
+
+  def lst(self, b, name):
+    o = super().lst(b, name)
+    o.fields['_element'].fields.update(_description='element', _metadata={})
+    return o
+
+  def setup_policy(self, policy):
+    _ih_policy(policy)
+    _ext_policy(policy, field_level=False)
+
+  def inputs(self, b):
+    _assume_ih(b)
+    _assume_ext_ih(b)
+    return dict(self=self.lst(b, 'self'), base=self.lst(b, 'base')), dict(value=b.seq('value'))
+
+  def requires(self, self_, base):
+    return wf_list(self_) and wf_list(base)
+
+  def ensures_extended_accepts_only_what_base_accepts(self, self_, base, value):
+    key = self_._element._key
+    acc_s = acc_len(key._min_value, key._max_value, len(value)) and forall_range(
+        0, len(value), lambda i: eacc_post(self_._element._value, value[i]))
+    return implies(acc_s, acc_list(base, value))
+
+  def ensures_base_is_compatible_with_extended(self, self_, base):
+    return vs.List._is_compatible(base, self_)
+
+  def trace_element_spec_was_extended_with_base_element(self, events, outcome, interp, env):
+    if outcome[0] != 'return':
+      return True
+    ext = [e for e in events if e.kind == 'extend']
+    s, base = interp.resolve(env['self']), interp.resolve(env['base'])
+    return (len(ext) == 1 and ext[0].data[0] is s.fields['_element'].fields['_value']
+            and ext[0].data[1] is base.fields['_element'].fields['_value'])
+
+  def replay(self, obligation, m):
+    mk = lambda n: pg.typing.List(pg.typing.Int(), min_size=m[n + '_min'], max_size=m.opt(n + '_max'))
+    s, base = mk('self'), mk('base')
+    before = repr(s)
+    try:
+      s._extend(base)
+    except TypeError as e:
+      return dict(outcome='not-reproduced', detail=f'TypeError: {e}')
+    n = m.get('value.len') or 0
+    value = [0] * n
+    bad = (eacc(s, value) and not eacc(base, value)) or not base.is_compatible(s)
+    return dict(outcome='reproduced' if bad else 'not-reproduced',
+                detail=f'{before}._extend({base!r}) -> {s!r}; value={value!r}: extended accepts {eacc(s, value)}, '
+                       f'base accepts {eacc(base, value)}; base.is_compatible(extended) = {base.is_compatible(s)}')
+
+
+@spec
+def acc_tuple_post(t, value):
+  return ite(
+      tuple_fixed(t),
+      len(value) == len(t._elements) and forall_range(
+          0, len(value), lambda i: eacc_post(t._elements[i]._value, value[i])),
+      acc_len(t._min_size, t._max_size, len(value)) and forall_range(
+          0, len(value), lambda i: eacc_post(t._elements[0]._value, value[i])))
+
+
+@register
+class TupleExtend(_TupleBase):
+  """Tuple._extend, all four fixed/variable combinations with any arity: when
+  it returns, every tuple the extended spec accepts is accepted by the base."""
+  target = f'{M}:Tuple._extend'
+  raises = {TypeError: ()}
+  branch_mbqi = True
+
+  def setup_policy(self, policy):
+    _ih_policy(policy)
+    _ext_policy(policy, field_level=True)
+
+    # Field(TupleKey(i), value_spec, description): a fresh field whose value spec
+    # is the given one (NEWF is injective enough: only FVAL is observed)
+    def new_field(interp, args, kwargs, frame):
+      v = interp.resolve(args[1])
+      return absobj.ref(cs.Field, NEWF(absobj.ref_id(v), interp.to_z3(interp.resolve(args[0]).ghost['i'])), _elem_lazy)
+    policy.handlers[('new', cs.Field)] = new_field
+
+    def new_key(interp, args, kwargs, frame):
+      k = SObj(pg.typing.TupleKey, {})
+      k.ghost['i'] = args[0] if args else None
+      return k
+    policy.handlers[('new', pg.typing.TupleKey)] = new_key
+
+  def inputs(self, b):
+    _assume_ih(b)
+    _assume_ext_ih(b)
+    v, i = z3.Ints('nf_v nf_i')
+    b.path.assume(z3.ForAll([v, i], FVAL(NEWF(v, i)) == v), check=False)
+    return dict(self=self.tup(b, 'self'), base=self.tup(b, 'base')), \
+        dict(value=b.seq('value', kind='tuple'))
+
+  def requires(self, self_, base):
+    return wf_tuple(self_) and wf_tuple(base)
+
+  def ensures_extended_accepts_only_what_base_accepts(self, self_, base, value):
+    return implies(acc_tuple_post(self_, value), acc_tuple(base, value))
+
+  def ensures_one_field_per_position_when_fixed(self, self_):
+    # the shape part of the representation invariant (a spec whose inherited
+    # bounds are contradictory, min > max, accepts nothing and is harmless)
+    return ite(tuple_fixed(self_), len(self_._elements) == self_._min_size,
+               len(self_._elements) == 1)
